@@ -26,10 +26,15 @@ TYPE_NAME = {"Source": "SOURCE", "PLoad": "LOAD", "ILoad": "LOAD", "RLoad": "LOA
 class Table:
     """Tabulated parameter: io axis (strictly increasing, >= 0), vi rows (strictly increasing, > 0), z[row][col]."""
 
-    def __init__(self, io, vi, z):
+    def __init__(self, io, vi, z, neg_rows=False):
         self.io, self.vi, self.z = list(io), list(vi), [list(r) for r in z]
+        # neg_rows: the table is HANDED to the constructor the way a negative-rail datasheet table is written - vi rows
+        # negative (ascending numerically, i.e. descending in magnitude); io/vi/z above stay the normalised reference view
+        self.neg_rows = neg_rows
 
     def as_dict(self, key):
+        if self.neg_rows:
+            return {"vi": [-v for v in reversed(self.vi)], "io": list(self.io), key: [list(r) for r in reversed(self.z)]}
         return {"vi": list(self.vi), "io": list(self.io), key: [list(r) for r in self.z]}
 
     def value(self, io, vi):
@@ -113,7 +118,13 @@ def interp2(tbl, x, y):
     xc = Min(Max(x, xs[0]), xs[-1])
     yc = Min(Max(y, ys[0]), ys[-1])
     pts, vals = [], []
-    for j, v in enumerate(ys):
+    # which diagonal Qhull splits a cell along is unspecified and depends on the order of the points: list them in the order the
+    # constructor receives them (concrete replay only - in symbolic mode the diagonal is a free Boolean shared with the shim)
+    rows = list(range(len(ys)))
+    if getattr(tbl, "neg_rows", False):
+        rows.reverse()
+    for j in rows:
+        v = ys[j]
         for i, c in enumerate(xs):
             pts.append((c, v))
             vals.append(Abs(tbl.z[j][i]))
